@@ -53,6 +53,11 @@ def run(ctx):
     table = shim_table(repo)
     r5 = ctx.rule("C13.R5", "POINT-HISTORY: the function each shim returns, called twice with ONE parameter buffer whose content was changed in place in between (astensor / detach / numpy do not copy a buffer of the backend's own dtype): the second call evaluates objective, value and gradient at the NEW content -- nothing remembered from the first call is returned", "HISTORY", floor=6)
     _shim_history(ctx, r5)
+    r6 = ctx.rule("C13.R6", "HANDOVER: between the shim and the minimiser nothing alters the (value, gradient) function: OptimizerMixin._internal_minimize, interpreted with recording _get_minimizer / _minimize, hands over the function it was given -- or one that returns exactly that function's value and gradient, at interior points and at points on the bounds with the gradient pointing either way; minuit_optimizer._get_minimizer and scipy_optimizer._minimize, with the library entry points as recorders, give the library that value as cost function and that gradient (Minuit grad= / scipy jac=) and no gradient when gradients are off", "HANDOVER", floor=6)
+    _handover(ctx, r6, repo)
+    _handover_minimisers(ctx, r6, repo)
+    r7 = ctx.rule("C13.R7", "STATIC-IDENTITY: jax.jit selects the traced (value, gradient) function by == / hash of its static arguments, the model among them: the model class keeps identity equality, or -- where it (or a base) defines __eq__ -- two models built from ONE specification object with different interpolation codes or different clipping options (different likelihood functions) do not compare equal (Model.__init__ and __eq__ interpreted over the real configuration and main-model classes)", "STATIC", floor=1)
+    _static_identity(ctx, r7, repo)
     r4 = ctx.rule("C13.R4", "POINT: on the jax path the function that is differentiated is evaluated at the vector holding every fixed parameter at its own index with its own value and the free parameters in order in between -- shim and _final_objective composed by interpretation (real _TensorViewer), for fixed parameters listed in ascending and in other orders", "POINT", floor=4)
     from .c05 import jax_objective_point
     jax_objective_point(ctx, r4, repo, table, repo.func(OPT + "common.py", "_make_stitch_pars"), repo.func(OPT + "common.py", "shim"))
@@ -247,6 +252,277 @@ def _boundary_gradients(ctx, rid, repo):
                     ctx.violated(rid, fast.methods["__call__"], f"code {key} gradient at alpha = {t}", f"the interpolation is differentiable at alpha = {t}, but the expression the vectorised code evaluates exactly AT that point has another derivative with respect to alpha (a term that should carry alpha is replaced by a constant there): automatic differentiation returns a wrong gradient component for a parameter sitting on the breakpoint, although every value is right", expected=str(d_lo)[:200], found=str(d_pt)[:200])
             except Undecided as e:
                 ctx.unrecognised(rid, fast.methods["__call__"], f"code {key} at alpha = {t}", f"not interpretable: {e}")
+
+
+def _handover(ctx, rid, repo):
+    from ..alg import AutoRegion, Closure, Interp, NotHandled, Obj, Poly, PyFunc, RaisedInFragment
+    from ..objmodel import Instance, World
+    at = Poly.atom
+    MIX = OPT + "mixins.py"
+    cls = repo.cls(MIX, "OptimizerMixin")
+    im = cls.methods.get("_internal_minimize") if cls else None
+    if im is None:
+        ctx.unrecognised(rid, repo.module(MIX), "OptimizerMixin._internal_minimize", "not found")
+        return
+    errs = (Undecided, KeyError, TypeError, ValueError, IndexError, AttributeError)
+    for do_grad in (True, False):
+        site = f"{MIX}::OptimizerMixin._internal_minimize [do_grad={do_grad}]"
+        got, seen_at = [], []
+
+        def objective(a, k, do_grad=do_grad):
+            seen_at.append([str(to_poly(x)) for x in (a[0].tolist() if hasattr(a[0], "tolist") else list(a[0]))])
+            return (at("V"), [at("g0"), at("g1")]) if do_grad else at("V")
+
+        func = PyFunc(objective, "objective_and_grad")
+
+        def getmin(a, k):
+            got.append(("_get_minimizer", a[0] if a else k.get("objective_and_grad", k.get("func"))))
+            return Obj("minimizer")
+
+        def domin(a, k):
+            got.append(("_minimize", a[1] if len(a) > 1 else k.get("func")))
+            return Obj("result", {"success": True})
+
+        try:
+            from ..listnp import externals as list_tensors
+            lt = list_tensors()
+            lt.setdefault("asarray", lt["astensor"])
+            lt.setdefault("array", lt["astensor"])
+            w = World({**lt, "__strict__": True, "get_backend": (lambda tl_: (lambda a, k: (tl_, Obj("optimizer"))))(_tl())},
+                      module_env={"log": Obj("log"), "exceptions": Obj("exceptions"), "np": __import__("pyhfsa.alg", fromlist=["MODULE"]).MODULE})
+            w.add_class(cls)
+            opt = Instance(cls)
+            # the two methods every concrete optimizer supplies, as recorders
+            opt.attrs["_get_minimizer"], opt.attrs["_minimize"] = PyFunc(getmin, "_get_minimizer"), PyFunc(domin, "_minimize")
+            bounds = [(at("l0"), at("h0")), (at("l1"), at("h1"))]
+            w.call_method(opt, "_internal_minimize", [func, [at("x0"), at("x1")]], {"do_grad": do_grad, "bounds": bounds, "fixed_vals": None, "options": {}, "par_names": None})
+            if len(got) < 2:
+                ctx.violated(rid, im, "handover", "the minimiser is not constructed / run with the function produced by the shim", found=str([g for g, _ in got]))
+                continue
+            bad = None
+            for where, f_ in got:
+                if f_ is func:
+                    continue
+                if not isinstance(f_, (Closure, PyFunc)):
+                    bad = f"{where} receives {type(f_).__name__} instead of the shim's function"
+                    break
+                # a wrapper: it must return what the wrapped function returns, wherever it is called
+                points = {
+                    "an interior point": ([at("p0"), at("p1")], {"p0": 1, "p1": 2, "l0": 0, "l1": 0, "h0": 10, "h1": 10, "g0": 3, "g1": -3}),
+                    "a point on the lower bounds, gradient pointing outwards": ([at("l0"), at("l1")], {"l0": 0, "l1": 0, "h0": 10, "h1": 10, "g0": 3, "g1": 5}),
+                    "a point on the upper bounds, gradient pointing outwards": ([at("h0"), at("h1")], {"l0": 0, "l1": 0, "h0": 10, "h1": 10, "g0": -3, "g1": -5}),
+                }
+                for lab, (pt, reg) in points.items():
+                    del seen_at[:]
+                    from fractions import Fraction
+                    from ..listnp import T
+                    region = AutoRegion({k_: Fraction(v_) for k_, v_ in reg.items()})
+                    if isinstance(f_, PyFunc):
+                        out = f_.f([T(pt)], {})
+                    else:
+                        home = f_.interp if isinstance(getattr(f_, "interp", None), Interp) else Interp({}, {}, region, externals=w.externals())
+                        home.region = region
+                        out = home._call_closure(f_, [T(pt)], {})
+                    if do_grad:
+                        v_, g_ = out
+                        g_ = g_.tolist() if hasattr(g_, "tolist") else list(g_)
+                        res = (str(to_poly(v_)), [str(to_poly(x)) for x in g_])
+                        want = ("V", ["g0", "g1"])
+                    else:
+                        res, want = str(to_poly(out)), "V"
+                    if res != want or seen_at != [[str(x) for x in pt]]:
+                        bad = f"{where} receives a wrapper that, at {lab}, returns {res} (objective evaluated at {seen_at}); the shim's function returns {want} at {[str(x) for x in pt]}"
+                        break
+                if bad:
+                    break
+            if bad:
+                ctx.violated(rid, im, "function handed to the minimiser", "value and gradient reaching the minimiser are not those of the shim's objective: " + bad, expected="the shim's (value, gradient) function, unaltered", found=bad, node=im.node)
+            else:
+                ctx.holds(rid, site, "minimiser constructed and run with the shim's function itself" if all(f_ is func for _, f_ in got) else "wrapper returns the wrapped value and gradient at interior and boundary points")
+        except RaisedInFragment as e:
+            ctx.violated(rid, im, "handover", f"raises {e.exc_name} on valid inputs")
+        except errs as e:
+            ctx.unrecognised(rid, im, f"_internal_minimize [do_grad={do_grad}]", f"not interpretable: {type(e).__name__}: {e}")
+
+
+def _handover_minimisers(ctx, rid, repo):
+    """The two concrete optimizers: what the LIBRARY is given.  Minuit(fcn, start, grad=...) and
+    scipy.optimize.minimize(fun, x0, jac=...) are recorders; fcn / grad / fun are then called at a point."""
+    from fractions import Fraction
+    from ..alg import AutoRegion, Closure, Interp, Obj, Poly, PyFunc, RaisedInFragment
+    from ..listnp import T
+    from ..objmodel import Instance, World
+    at, c = Poly.atom, Poly.const
+    errs = (Undecided, KeyError, TypeError, ValueError, IndexError, AttributeError)
+    pt = [at("p0"), at("p1")]
+
+    def call(w, f_, args):
+        if isinstance(f_, PyFunc):
+            return f_.f(args, {})
+        if isinstance(f_, Closure):
+            home = f_.interp if isinstance(getattr(f_, "interp", None), Interp) else Interp({}, {}, AutoRegion(), externals=w.externals())
+            return home._call_closure(f_, args, {})
+        raise Undecided(f"not a function: {type(f_).__name__}")
+
+    def show(v):
+        if isinstance(v, tuple):
+            return tuple(show(x) for x in v)
+        if isinstance(v, list):
+            return [show(x) for x in v]
+        return str(to_poly(v))
+
+    for do_grad in (True, False):
+        seen_at = []
+
+        def objective(a, k, do_grad=do_grad):
+            seen_at.append(show(list(a[0])))
+            return (at("V"), [at("g0"), at("g1")]) if do_grad else at("V")
+
+        func = PyFunc(objective, "objective_and_grad")
+        want_v, want_g = "V", ["g0", "g1"]
+        # ---- minuit
+        mc_ = repo.cls(OPT + "opt_minuit.py", "minuit_optimizer")
+        gm = mc_.methods.get("_get_minimizer") if mc_ else None
+        if gm is None:
+            ctx.unrecognised(rid, repo.module(OPT + "opt_minuit.py"), "minuit_optimizer._get_minimizer", "not found")
+        else:
+            try:
+                made = []
+                w = World({"__strict__": True, "Minuit": lambda a, k: (made.append((a, k)) or Obj("MINUIT"))}, region=AutoRegion(), module_env={"iminuit": Obj("iminuit"), "exceptions": Obj("exceptions")})
+                w.add_class(mc_)
+                inst = Instance(mc_)
+                inst.attrs.update({"verbose": False, "errordef": c(1)})
+                w.call_method(inst, "_get_minimizer", [func, [at("i0"), at("i1")], [(at("l0"), at("h0")), (at("l1"), at("h1"))]], {"fixed_vals": None, "do_grad": do_grad, "par_names": None})
+                a, k = made[-1]
+                fcn, grad = (a[0] if a else k.get("fcn")), k.get("grad", a[2] if len(a) > 2 else None)
+                del seen_at[:]
+                v_ = show(call(w, fcn, [T(pt)]))
+                g_ = show(_aslist(call(w, grad, [T(pt)]))) if isinstance(grad, (Closure, PyFunc)) else grad
+                at_ok = all(x == ["p0", "p1"] for x in seen_at) and seen_at
+                if v_ != want_v or not at_ok:
+                    ctx.violated(rid, gm, f"Minuit cost function [do_grad={do_grad}]", "the function Minuit minimises is not the shim's objective value at the point Minuit asks for", expected=f"{want_v} at ['p0', 'p1']", found=f"{v_} (objective evaluated at {seen_at})", node=gm.node)
+                elif do_grad and grad is not None and g_ != want_g:
+                    ctx.violated(rid, gm, "Minuit gradient function [do_grad=True]", "the gradient Minuit is given is not the gradient the shim returns together with the value (it belongs to a different function than the one being minimised)", expected=str(want_g), found=str(g_), node=gm.node)
+                elif not do_grad and grad not in (None, False):
+                    ctx.violated(rid, gm, "Minuit gradient function [do_grad=False]", "Minuit is given a gradient function although the objective returns a value only", found=str(g_), node=gm.node)
+                else:
+                    ctx.holds(rid, f"{OPT}opt_minuit.py::minuit_optimizer._get_minimizer [do_grad={do_grad}]", f"Minuit(fcn -> {v_}, grad -> {g_})")
+            except RaisedInFragment as e:
+                ctx.violated(rid, gm, f"_get_minimizer [do_grad={do_grad}]", f"raises {e.exc_name} on valid inputs", node=gm.node)
+            except errs as e:
+                ctx.unrecognised(rid, gm, f"minuit_optimizer._get_minimizer [do_grad={do_grad}]", f"not interpretable: {type(e).__name__}: {e}")
+        # ---- scipy
+        sc = repo.cls(OPT + "opt_scipy.py", "scipy_optimizer")
+        mm = sc.methods.get("_minimize") if sc else None
+        if mm is None:
+            ctx.unrecognised(rid, repo.module(OPT + "opt_scipy.py"), "scipy_optimizer._minimize", "not found")
+            continue
+        try:
+            rec = []
+            w = World({"__strict__": True}, region=AutoRegion(), module_env={"exceptions": Obj("exceptions")})
+            w.add_class(sc)
+            inst = Instance(sc)
+            inst.attrs.update({"maxiter": at("DEFAULT_MAXITER"), "verbose": False, "tolerance": None, "solver_options": {}})
+            solver = PyFunc(lambda a, k: (rec.append((a, k)) or Obj("RESULT")), "minimizer")
+            w.call_method(inst, "_minimize", [solver, func, [at("x0"), at("x1")]], {"do_grad": do_grad, "bounds": [(at("l0"), at("h0")), (at("l1"), at("h1"))], "fixed_vals": None, "options": {}})
+            a, k = rec[-1]
+            fun, jac = (a[0] if a else k.get("fun")), k.get("jac")
+            del seen_at[:]
+            out = call(w, fun, [T(pt)])
+            at_ok = all(x == ["p0", "p1"] for x in seen_at) and seen_at
+            if isinstance(jac, (Closure, PyFunc)):
+                v_, g_ = show(out), show(_aslist(call(w, jac, [T(pt)])))
+            elif jac is True:
+                v_, g_ = (show(out[0]), show(_aslist(out[1]))) if isinstance(out, tuple) and len(out) == 2 else (show(out), "<fun returns no gradient although jac=True>")
+            else:
+                v_, g_ = show(out), None
+            if v_ != want_v or not at_ok:
+                ctx.violated(rid, mm, f"scipy objective [do_grad={do_grad}]", "the function scipy minimises is not the shim's objective value at the point scipy asks for", expected=f"{want_v} at ['p0', 'p1']", found=f"{v_} (objective evaluated at {seen_at})", node=mm.node)
+            elif do_grad and g_ != want_g:
+                ctx.violated(rid, mm, "scipy jac [do_grad=True]", "with gradients on, scipy is not given the gradient the shim returns together with the value (jac must be True for a (value, gradient) function, or a function returning that gradient)", expected=f"jac=True, gradient {want_g}", found=f"jac={jac if not isinstance(jac, (Closure, PyFunc)) else 'function'}, gradient {g_}", node=mm.node)
+            elif not do_grad and (jac is True or isinstance(jac, (Closure, PyFunc))):
+                ctx.violated(rid, mm, "scipy jac [do_grad=False]", "scipy is told the objective returns a gradient although it returns a value only", found=f"jac={jac}", node=mm.node)
+            else:
+                ctx.holds(rid, f"{OPT}opt_scipy.py::scipy_optimizer._minimize [do_grad={do_grad}]", f"minimize(fun -> {v_}, jac={jac if not isinstance(jac, (Closure, PyFunc)) else 'function'} -> {g_})")
+        except RaisedInFragment as e:
+            ctx.violated(rid, mm, f"_minimize [do_grad={do_grad}]", f"raises {e.exc_name} on valid inputs", node=mm.node)
+        except errs as e:
+            ctx.unrecognised(rid, mm, f"scipy_optimizer._minimize [do_grad={do_grad}]", f"not interpretable: {type(e).__name__}: {e}")
+
+
+def _static_identity(ctx, rid, repo):
+    from .. import listnp
+    from ..alg import AutoRegion, Obj, Poly, PyFunc, RaisedInFragment
+    from ..objmodel import Instance
+    from . import viewers
+    PDF = "src/pyhf/pdf.py"
+    at, c = Poly.atom, Poly.const
+    mdl = repo.cls(PDF, "Model")
+    jx = repo.module(OPT + "opt_jax.py")
+    if mdl is None:
+        ctx.unrecognised(rid, repo.module(PDF), "Model", "class not found")
+        return
+    errs = (Undecided, KeyError, TypeError, ValueError, IndexError, AttributeError)
+    try:
+        w = viewers.world(repo, {"__strict__": True, "__isinstance__": lambda v, cl: isinstance(v, Instance) and v.cls.name == getattr(cl, "name", None)})
+        mm, mc, mix = repo.cls(PDF, "_MainModel"), repo.cls(PDF, "_ModelConfig"), repo.cls("src/pyhf/mixins.py", "_ChannelSummaryMixin")
+        w.add_class(mix).add_class(mc).add_class(mm).add_class(mdl)
+        eq = w.methods_of(mdl).get("__eq__")
+        if eq is None:
+            ctx.holds(rid, f"{PDF}::Model [no __eq__ on the class or its bases]", "models are equal only to themselves: a jit cache entry is never shared between two model objects")
+            return
+        ctx.touch(eq)
+        cm_obj = Obj("constraint_model")
+        nominal = listnp.T([[[[at("n0"), at("n1")]]]])
+        w.base.update({
+            "_nominal_and_modifiers_from_spec": lambda a, k: ({}, nominal),
+            "_ConstraintModel": lambda a, k: cm_obj,
+            ".has_pdf": lambda recv, a, k: False if recv is cm_obj else _nh(),
+        })
+        w.module_env.update({"histfactory_set": Obj("histfactory_set"), "schema": Obj("schema"), "log": Obj("log"), "prob": Obj("prob"), "exceptions": Obj("exceptions"), "NotImplemented": Obj("NotImplemented")})
+        spec = {"channels": [{"name": "SR", "samples": [{"name": "bkg", "data": [at("n0"), at("n1")], "modifiers": [{"name": "sys", "type": "normsys", "data": {"hi": at("hi"), "lo": at("lo")}}]}]}]}
+        base = {"batch_size": None, "validate": False}
+        pairs = (
+            ("default interpolation codes / piecewise-linear codes", {}, {"modifier_settings": {"normsys": {"interpcode": "code1"}, "histosys": {"interpcode": "code0"}}}),
+            ("no sample clipping / clip_sample_data=0", {}, {"clip_sample_data": c(0)}),
+            ("no bin clipping / clip_bin_data=0", {}, {"clip_bin_data": c(0)}),
+        )
+        for lab, ka, kb in pairs:
+            a_ = w.new(mdl, [spec], {**base, **ka})
+            b_ = w.new(mdl, [spec], {**base, **kb})
+            same_twin = w.new(mdl, [spec], {**base, **ka})
+            r_ = w.call_method(a_, "__eq__", [b_])
+            r2 = w.call_method(a_, "__eq__", [same_twin])
+            if r_ is True or (not isinstance(r_, (bool, Obj)) and r_ is not None and w_truth(r_)):
+                ctx.violated(rid, eq, f"Model.__eq__ [{lab}]", "two models that evaluate DIFFERENT likelihoods compare equal: jax.jit (static argument `pdf`) hands the second model the function traced for the first, so value and gradient belong to another model's objective", expected="models with different options are not equal", found=f"a == b is {r_} (same options: {r2})", node=eq.node)
+            else:
+                ctx.holds(rid, f"{PDF}::Model.__eq__ [{lab}]", f"not equal ({getattr(r_, 'name', r_)})")
+    except RaisedInFragment as e:
+        ctx.unrecognised(rid, mdl, "Model.__eq__", f"interpretation raised {e.exc_name}")
+    except errs as e:
+        ctx.unrecognised(rid, mdl, "Model.__eq__", f"not interpretable: {type(e).__name__}: {e}")
+
+
+def w_truth(v):
+    try:
+        p_ = to_poly(v)
+    except Undecided:
+        return False
+    return p_.is_const() and p_.const_value() != 0
+
+
+def _nh():
+    from ..alg import NotHandled
+    raise NotHandled()
+
+
+def _aslist(v):
+    return list(v) if isinstance(v, (list, tuple)) else v
+
+
+def _tl():
+    from .c05 import _tensorlib_obj
+    return _tensorlib_obj()
 
 
 def _shim_history(ctx, rid):
